@@ -316,6 +316,23 @@ Definition gdisplay (b : dblock) (prefix media : str) (ord : params) : option st
 
 Definition stuck_display : dblock := DCons (DAdd (DField "")) DNil.
 
+(* ---- the observation `p <s>` of the harness (parse, to_string(), parse again) computed from the translated trees alone;
+   C19_k1_observations: it is Model/Uri.v's parse_obs. The driver evaluates it instead of parse_obs when C19_MODEL=generated
+   (used to test the interpreter itself: on a changed source that still translates, it must follow the implementation) ---- *)
+
+Definition gpobs (r : gres uri) : pobs :=
+  match r with GOk u => pobs_of (POk u) | GFail e => OErr e | GStuck => OPanic end.
+
+Definition gparse_obs (P : parser) (D : dblock) (s : str) : pobs * dobs * pobs :=
+  match gparse P s with
+  | GOk u => match gdisplay D (u_prefix u) (u_media u) (sort_params (u_params u)) with
+             | Some x => (gpobs (GOk u), Disp x, gpobs (gparse P x))
+             | None => (gpobs (GOk u), DPanic, ONone)
+             end
+  | GFail e => (OErr e, NoDisp, ONone)
+  | GStuck => (OPanic, NoDisp, ONone)
+  end.
+
 (* ---- add_session_id ------------------------------------------------------------------------------- *)
 
 (* let u = Self::parse(channel)?; lock; u.put(<key>, session_id.to_string()); Ok(u.to_string()) *)
